@@ -41,7 +41,7 @@ pub struct PlanT {
     pub initial: Vec<u32>,
     /// thread 0 is the environment thread when it holds WriteGrid events
     pub threads: Vec<Vec<TEv>>,
-    /// seed of the identifier source behind OpHandle (hook H3); 0 = not seeded
+    /// seed of the identifier source behind OpHandle (vendored uuid, DESIGN §2 "H3"); 0 = not seeded
     #[serde(default)]
     pub ids: u64,
 }
@@ -90,7 +90,7 @@ fn body(plan: Arc<PlanT>, root: PathBuf, log: Arc<Mutex<Vec<Obs>>>) {
         let _ = std::fs::write(root_dir(&root, 0).join("geoid").join(name), grid_bytes(*v));
     }
     Plain::verif_reset_grids();
-    geodesy::verif_seam::uuid::seed(if plan.ids == 0 { None } else { Some((plan.ids, plan.ids & 1 == 1)) });
+    uuid::verif_source::seed(if plan.ids == 0 { None } else { Some((plan.ids, plan.ids & 1 == 1)) });
     CLOCK.store(1, SeqCst);
     // the shared context with its pre-created operators
     let mut shared = Plain::new();
@@ -261,7 +261,7 @@ impl Engine for RegThreads {
         EngineInfo {
             rule: "regsim-threads: one run = one shuttle execution (one seeded schedule; uniformly random or PCT with depth 1-3) of 2-4 threads. All share one Arc<Plain> holding pre-created operators (apply only); each owns a private Plain on which it instantiates gridshift operators, re-applies them, and calls Plain::clear_grids; one thread is the environment and replaces constant-valued grid files by new versions. Through the verif_seam Mutex shim every acquire, contended retry and release of the process wide grid cache lock is a scheduling point; the harness yields between API calls. History check by global event sequence numbers: every op() on an always-valid file succeeds; the version it observes is one its file held at some instant up to the call's return (which of them is left open); shared and private operators return their creation-time values whenever they are applied; no deadlock, no livelock (step bound), no panic. Non-trivial = at least two threads touch the cache concurrently with a write or a clear; distinct = hash of the observation sequence (which thread saw what in which order), i.e. distinct observable interleavings.",
             real_components: &["geodesy Plain contexts, GRIDS cache and its lock (std Mutex inside the verif_seam shim), gridshift operator, grid decoder", "std::fs on tmpfs"],
-            simulated_components: &["the thread scheduler (shuttle RandomScheduler / PctScheduler, one schedule per run, seed in the Plan)", "the environment thread replacing grid files", "the identifier source behind OpHandle (hook H3, seed in the Plan)"],
+            simulated_components: &["the thread scheduler (shuttle RandomScheduler / PctScheduler, one schedule per run, seed in the Plan)", "the environment thread replacing grid files", "the identifier source behind Uuid::new_v4 (vendored uuid 1.26.1, seed in the Plan)"],
             assumptions: &[
                 "shuttle runs the threads as coroutines on one OS thread, so code between two scheduling points is atomic; scheduling points exist at every grid cache lock operation (hook) and between API calls (harness), not inside std::fs calls",
                 "which version a racing op() sees is not fixed by the property: any version the file has held up to the call's return is accepted",
